@@ -634,6 +634,13 @@ func (a *align) RefSites(name string, sites []int) (refsites []int, err error) {
 		}
 	}
 
+	// the reference sequence has len(seq)-ngaps residues
+	for _, s := range sites {
+		if s >= len(seq)-ngaps {
+			return nil, fmt.Errorf("site is outside reference sequence : %d", s)
+		}
+	}
+
 	return
 }
 
